@@ -37,9 +37,52 @@ func TestSync(t *testing.T) {
 	}
 	syncT = t
 	r := NewRun(prop, tier, seed)
+	currentRun = r
 	gen(r)
 	if err := r.Write(out); err != nil {
 		t.Fatal(err)
+	}
+}
+
+// runBubble runs one scenario under virtual time.  A scenario that panics, or that is still not finished after
+// 20 s of REAL time (goroutines waiting for a mutex are invisible to the bubble's deadlock detection), is recorded
+// as a failure of the property under test - with the scenario's description - and abandoned.
+type bubbleProblem struct{ note, msg string }
+
+var (
+	bubbleProblems []bubbleProblem
+	bubbleNote     string // set by the scenario functions: what is being run
+	currentRun     *Run
+)
+
+func runBubble(f func(t *testing.T)) {
+	note := bubbleNote
+	if len(bubbleProblems) > 0 {
+		return // a scenario is stuck: its goroutines are still around, nothing that follows can be trusted
+	}
+	record := func(msg string) {
+		bubbleProblems = append(bubbleProblems, bubbleProblem{note, msg})
+		if currentRun != nil {
+			currentRun.Fail(strings.ToLower(currentRun.Prop)+"-scenario-stuck", note, msg)
+		}
+	}
+	done := make(chan string, 1)
+	go func() {
+		defer func() {
+			if x := recover(); x != nil {
+				done <- fmt.Sprintf("scenario panicked: %v", x)
+			}
+		}()
+		synctest.Test(syncT, f)
+		done <- ""
+	}()
+	select {
+	case msg := <-done:
+		if msg != "" {
+			record(msg)
+		}
+	case <-time.After(20 * time.Second):
+		record("the scenario did not finish: a call, the receive loop or Close is stuck (20 s of real time, all timers are virtual)")
 	}
 }
 
@@ -126,6 +169,13 @@ func (c *labConn) rebase() {
 }
 
 // priorCalls: how many unanswered calls the client has made before the observed one (0..2, from the scenario's parameters)
+func durStr(d *time.Duration) string {
+	if d == nil {
+		return "never"
+	}
+	return d.String()
+}
+
 func priorCalls(tau time.Duration, tries, nds int) int {
 	if tries < 0 || tries > 5 {
 		return 0 // an unanswered call with unbounded tries never ends
@@ -160,7 +210,8 @@ var labHW = net.HardwareAddr{2, 0, 0, 0, 0, 1}
 func msArg(b []byte) time.Duration { return time.Duration(numArg(b)) * time.Millisecond }
 
 func timedCallV4(tau time.Duration, tries int, cancelAt, closeAt *time.Duration, ds [][]byte) (out timedOut) {
-	synctest.Test(syncT, func(t *testing.T) {
+	bubbleNote = fmt.Sprintf("nclient4 timed call: timeout %v, tries %d, context ends %s, close %s, deliveries %x", tau, tries, durStr(cancelAt), durStr(closeAt), ds)
+	runBubble(func(t *testing.T) {
 		conn := newLabConn()
 		c, err := nclient4.NewWithConn(conn, labHW, nclient4.WithTimeout(tau), nclient4.WithRetry(tries))
 		if err != nil {
@@ -241,7 +292,8 @@ func timedCallV4(tau time.Duration, tries int, cancelAt, closeAt *time.Duration,
 var reqBytes []byte
 
 func timedCallV6(tau time.Duration, tries int, cancelAt, closeAt *time.Duration, ds [][]byte) (out timedOut) {
-	synctest.Test(syncT, func(t *testing.T) {
+	bubbleNote = fmt.Sprintf("nclient6 timed call: timeout %v, tries %d, context ends %s, close %s, deliveries %x", tau, tries, durStr(cancelAt), durStr(closeAt), ds)
+	runBubble(func(t *testing.T) {
 		conn := newLabConn()
 		c, err := nclient6.NewWithConn(conn, labHW, nclient6.WithTimeout(tau), nclient6.WithRetry(tries))
 		if err != nil {
@@ -635,7 +687,8 @@ func sortInts(a []int) {
 }
 
 func reuseAfterReturn(r *Run, v6 bool) {
-	synctest.Test(syncT, func(t *testing.T) {
+	bubbleNote = fmt.Sprintf("v6=%v: calls ending by timeout, failed write, cancel, response, timeout on one client with one transaction id", v6)
+	runBubble(func(t *testing.T) {
 		conn := newLabConn()
 		// however a call ended (timeout, failed write, cancelled context, response), its id is free again at once
 		var call func(ctx context.Context) error
